@@ -133,7 +133,8 @@ pub fn gtext_without(min: usize, banned: &'static [char], replacement: char) -> 
 pub fn gtype() -> BoxedStrategy<String> {
     const FIRST: &[char] = &['a', 't', 'n', 'p', 'z', 'A', 'T', 'N', 'Z', 'G'];
     const REST: &[char] = &['a', 'e', 'm', 'z', 'A', 'M', 'Z', '0', '7', '9', '.', '+', '-'];
-    (select(FIRST), proptest::collection::vec(select(REST), 0..=6))
+    // mostly short, sometimes 8-24 characters (several machine words)
+    (select(FIRST), prop_oneof![5 => proptest::collection::vec(select(REST), 0..=6), 1 => proptest::collection::vec(select(REST), 7..=23)])
         .prop_map(|(f, r)| std::iter::once(f).chain(r).collect::<String>())
         .boxed()
 }
@@ -150,7 +151,25 @@ pub fn gkey() -> BoxedStrategy<String> {
     let long = (select(FIRST), select(&['a', 'A'][..]), select(&[21usize, 22, 23, 24, 62, 63, 64, 65][..]), proptest::collection::vec(select(REST), 1..=2))
         .prop_map(|(f, fill, n, tail)| std::iter::once(f).chain(std::iter::repeat(fill).take(n)).chain(tail).collect::<String>());
     // valid keys among the literals of the source under test (well-known qualifier names)
-    let from_source = gliteral().prop_map(|l| if is_valid_key(&l) && l.as_bytes()[0].is_ascii_alphabetic() { l } else { "k".to_string() });
+    // ... alone, or extended by a suffix, in some letter case (a key of which a well-known key is a prefix)
+    let from_source = (gliteral(), select(&["", "", "_context", "_mirror", "X", "2", "_", "s"][..]), 0u8..3).prop_map(|(l, suffix, case)| {
+        if is_valid_key(&l) && l.as_bytes()[0].is_ascii_alphabetic() {
+            let k = format!("{l}{suffix}");
+            match case {
+                0 => k,
+                1 => k.to_ascii_uppercase(),
+                _ => {
+                    let mut c = k.chars();
+                    match c.next() {
+                        Some(f) => f.to_ascii_uppercase().to_string() + c.as_str(),
+                        None => k,
+                    }
+                },
+            }
+        } else {
+            "k".to_string()
+        }
+    });
     prop_oneof![12 => short, 1 => long, 2 => from_source]
         .prop_map(|s| {
             if s.eq_ignore_ascii_case("checksum") {
